@@ -19,7 +19,7 @@
    At R            : (b) the explicit next-step bound (see the statements below). *)
 From Coq Require Import String List Bool ZArith Arith QArith Reals.
 From GV Require Import Base.Outcome Base.AMap Model.GState Model.Creation Model.Query Model.Eigen Spec.History.
-From GV Require Import Proofs.WFDefs Proofs.AdjOk Proofs.EigenOk Proofs.EigenReal Proofs.EigenMatrix Proofs.EigenWF Proofs.EigenExample.
+From GV Require Import Proofs.WFDefs Proofs.AdjOk Proofs.EigenOk Proofs.EigenReal Proofs.EigenMatrix Proofs.EigenWF Proofs.EigenBound Proofs.EigenExample.
 Import ListNotations.
 
 Section C18.
@@ -249,6 +249,61 @@ Theorem C18_real_instance_nonvacuous :
             weights_nonneg ex_g1 = true.
 Proof. exact ex_real_ok. Qed.
 
+(* ------------------------------------------------------------------------------------------
+   (b) the explicit next-step bound, at Coq's reals.  M = I + A^T with A = [aent] read off the
+   edge store, [Mop g weighted f v] = f v + SUM_{u in names g} f u * A[u][v],
+   [Wtot g weighted] = SUM_{u,v in names g} A[u][v], n = number of nodes, thr = n * tol. *)
+Section C18_bound.
+  Context {T A : Type}.
+  Variable teqb : T -> T -> bool.
+  Variable tltb : T -> T -> bool.
+  Hypothesis teqb_spec : forall x y, teqb x y = true <-> x = y.
+  Hypothesis tltb_asym : forall x y, tltb x y = true -> tltb y x = false.
+  Hypothesis tltb_total : forall x y, tltb x y = false -> tltb y x = false -> x = y.
+  Notation gstate := (gstate T A).
+  Notation WF := (@WF T A teqb tltb).
+
+  (* (lambda, x) is an approximate eigenpair of M in L1:  ||M x - lambda x||_1 < (1 + Wtot) * n * tol *)
+  Theorem C18_eigen_residual_bound : forall (g : gstate) weighted max_iter tol x,
+    WF g -> (forall e, In e (get_all_edges g) -> wnn e = true) ->
+    eigenvector_centrality teqb NumR g weighted max_iter tol = Ok x ->
+    exists lam : R, (0 < lam)%R /\
+      (Rsum (fun v => Rabs (Mop teqb tltb g weighted (xat teqb NumR x) v - lam * xat teqb NumR x v)) (names g)
+       < (1 + Wtot teqb tltb g weighted) *
+         threshold NumR g (match tol with Some q => nofQ NumR q | None => nofQ NumR (1 # 1000000) end))%R.
+  Proof.
+    intros g weighted max_iter tol x W Hw H.
+    exact (ev_residual_bound teqb tltb teqb_spec tltb_asym tltb_total g weighted max_iter tol W Hw x H).
+  Qed.
+
+  (* one further pass of the very loop, x |-> normalise (x + A^T x), does not panic and measures an
+     L1 change below L * n * tol with the explicit constant L = (n + 1) * (1 + Wtot) *)
+  Theorem C18_next_step_bound : forall (g : gstate) weighted max_iter tol x,
+    WF g -> (forall e, In e (get_all_edges g) -> wnn e = true) ->
+    eigenvector_centrality teqb NumR g weighted max_iter tol = Ok x ->
+    exists x2 y2, step teqb NumR g weighted x = Ok (x2, y2) /\
+                  x2 = normalise NumR (matvec teqb tltb NumR g weighted x) /\
+                  (y2 < (INR (length (names g)) + 1) * (1 + Wtot teqb tltb g weighted) *
+                        threshold NumR g (match tol with Some q => nofQ NumR q | None => nofQ NumR (1 # 1000000) end))%R.
+  Proof.
+    intros g weighted max_iter tol x W Hw H.
+    exact (ev_next_step_bound teqb tltb teqb_spec tltb_asym tltb_total g weighted max_iter tol W Hw x H).
+  Qed.
+
+  Theorem C18_next_step_bound_reachable : forall s (g : gstate) weighted max_iter tol x,
+    reachable teqb tltb s g -> (forall e, In e (get_all_edges g) -> wnn e = true) ->
+    eigenvector_centrality teqb NumR g weighted max_iter tol = Ok x ->
+    exists x2 y2, step teqb NumR g weighted x = Ok (x2, y2) /\
+                  x2 = normalise NumR (matvec teqb tltb NumR g weighted x) /\
+                  (y2 < (INR (length (names g)) + 1) * (1 + Wtot teqb tltb g weighted) *
+                        threshold NumR g (match tol with Some q => nofQ NumR q | None => nofQ NumR (1 # 1000000) end))%R.
+  Proof.
+    intros s g weighted max_iter tol x Hr Hw H.
+    exact (ev_next_step_bound teqb tltb teqb_spec tltb_asym tltb_total g weighted max_iter tol
+             (HistoryOk.WF_reachable teqb tltb teqb_spec tltb_asym tltb_total s g Hr) Hw x H).
+  Qed.
+End C18_bound.
+
 (* a concrete weighted run with every hypothesis of the deepened theorems satisfied: the undirected
    graph {0,1} w=1, {1,2} w=4, self-loop {2,2} w=4 built by a history; A = [[0,1,0],[1,0,4],[0,4,4]],
    (I + A^T)(1/3,1/3,1/3) = (2,6,9)/3 of norm 11/3, and the first pass returns (2,6,9)/11 *)
@@ -263,6 +318,9 @@ Theorem C18_weighted_example_nonvacuous :
             (forall e, In e (get_all_edges ex_g3) -> wnn e = true) /\
             length (nodes_vec ex_g3) = 3%nat /\ length (get_all_edges ex_g3) = 3%nat.
 Proof. exact ex_g3_nonvacuous. Qed.
+
+Theorem C18_weighted_example_Wtot : Wtot Z.eqb Z.ltb ex_g3 true = 14%R.
+Proof. exact ex_g3_Wtot. Qed.
 
 Theorem C18_weighted_example_matrix :
   map (fun u => map (fun v => aent Z.eqb Z.ltb NumR ex_g3 true u v) [0%Z; 1%Z; 2%Z]) [0%Z; 1%Z; 2%Z]
